@@ -254,7 +254,12 @@ def exact_imposition(ctx):
     _same(ctx, f, """def func(x, *args, **kwds):
     xtype = type(x)
     x = asarray(list(x))
-    x[[i for i in index if i < len(x)]] = target
+    n = len(x)
+    if hasattr(target, '__len__'):
+        at = [(i,t) for (i,t) in zip(index, target) if -n <= i < n]
+        x[[i for (i,t) in at]] = [t for (i,t) in at]
+    else:
+        x[[i for i in index if -n <= i < n]] = target
     if not type(x) is xtype: x = xtype(x)
     return f(x, *args, **kwds)
 """, 'impose_at', 'x[selected in-range indices] = target on a copy, then f(x)', 'impose_at no longer pins the selected entries to the target exactly')
@@ -366,7 +371,20 @@ def collapse_settings_forwarded_exactly(ctx):
             bad = bad or ('a path appends no constraint', p)
             continue
         is_none = [tr for tt, tr in lits if tt[0] == 'cmp' and tt[1] in ('is', 'isnot', '==', '!=') and tt[2] in tgt and tt[3] == ('const', None)]
-        other = [tt for tt, tr in lits if not (tt[0] == 'cmp' and tt[2] in tgt and tt[3] == ('const', None))]
+        # a list of targets holds one target per PARAMETER: under hasattr(target, '__len__') the collapsed parameters' own
+        # entries [target[i] for i in collapse] are what impose_at must get (index k of the collapse paired with target[k])
+        seq_lit = [(tt, tr) for tt, tr in lits if tt[0] == 'call' and T.show(tt[1]) == 'hasattr' and len(tt[2]) == 2 and tt[2][0] in tgt and tt[2][1] == ('const', '__len__')]
+        other = [tt for tt, tr in lits if not (tt[0] == 'cmp' and tt[2] in tgt and tt[3] == ('const', None)) and (tt, tr) not in seq_lit]
+        if seq_lit and app is not None and app[0] == 'call' and T.show(app[1]).endswith('impose_at') and len(app[2]) == 2:
+            a1 = app[2][1]
+            wants = [T.simp(T.term(ast.parse("[(state[%s]['target'] if 'target' in state[%s] else None)[i] for i in collapses[%s]]" % (key, key, key), mode='eval').body)),
+                     T.simp(T.term(ast.parse("[state[%s].get('target')[i] for i in collapses[%s]]" % (key, key), mode='eval').body))]
+            per_param = a1 in wants and app[2][0] == ('sub', ('name', 'collapses'), ('name', key))
+            if seq_lit[0][1] is True:
+                if not per_param:
+                    bad = bad or ('a list of targets is handed to impose_at whole (%s): it holds one target per parameter, not one per collapsed index' % T.show(a1)[:60], p)
+                seen.add('target')
+                continue
         if other:
             bad = bad or ('the choice between the given target and the current value is made on `%s`, not on `target is None`' % T.show(other[0]), p)
             continue
@@ -375,6 +393,8 @@ def collapse_settings_forwarded_exactly(ctx):
             seen.add('target')
             if none_true:
                 bad = bad or ('the given target is used although it is None', p)
+            if not (seq_lit and seq_lit[0][1] is False):
+                bad = bad or ('the target is handed to impose_at whole on a path that has not established that it is a single value: a list of targets (one per parameter) is then paired with the collapsed indices by position', p)
         elif app[0] == 'call' and T.show(app[1]).endswith('impose_at') and len(app[2]) == 1 and app[2][0][0] == 'star' and 'select_params' in T.show(app[2][0]):
             seen.add('current')
             if not none_true:
